@@ -67,10 +67,12 @@ func (r *Rule) serves(prop string) bool {
 }
 
 type RuleCtx struct {
-	judged map[*ssa.Function]bool // scratch of R15b (functions already judged as producers in this run)
-	p      *Program
-	rule   *Rule
-	obs    []Obligation
+	judged    map[*ssa.Function]bool     // scratch of R15b (functions already judged as producers in this run)
+	r6Cleanup map[*ssa.Call]acquirerInfo // scratch of R6: acquisition calls that also hand back a cleanup closure
+	r6Fail    map[*ssa.Function]uint64   // scratch of R6: what a delegate has certainly done when it returns an error
+	p         *Program
+	rule      *Rule
+	obs       []Obligation
 }
 
 func (c *RuleCtx) add(st Status, key, pos, what, detail string, props []string, witness []string) {
@@ -124,7 +126,7 @@ func (c *RuleCtx) fn(name string) *ssa.Function {
 		c.undecided("anchor/"+name, "-", "anchor function "+name+" resolves", "function "+name+" not found in package zap (renamed or removed): the rule cannot locate its construct")
 		return nil
 	}
-	return f
+	return c.p.throughForwarders(f)
 }
 
 func (c *RuleCtx) method(typ, name string) *ssa.Function {
@@ -139,7 +141,101 @@ func (c *RuleCtx) method(typ, name string) *ssa.Function {
 		c.undecided("anchor/"+typ+"."+name, "-", "anchor method "+typ+"."+name+" resolves", "method "+typ+"."+name+" not found in package zap (renamed or removed): the rule cannot locate its construct")
 		return nil
 	}
+	return c.p.throughForwarders(f)
+}
+
+// throughForwarders: an anchor whose body has become a thin forwarder — it builds its arguments (an options
+// literal), calls one function of the package and returns that call's results — stands for the function
+// it forwards to (`Foo(a, b)` kept for compatibility next to `FooWithOptions(a, b, opts)`).
+func (p *Program) throughForwarders(f *ssa.Function) *ssa.Function {
+	for i := 0; i < 3; i++ {
+		g := forwardTarget(p, f)
+		if g == nil {
+			return f
+		}
+		f = g
+	}
 	return f
+}
+
+func forwardTarget(p *Program, f *ssa.Function) *ssa.Function {
+	if f == nil || len(f.Blocks) != 1 {
+		return nil
+	}
+	var call *ssa.Call
+	var ret *ssa.Return
+	for _, in := range f.Blocks[0].Instrs {
+		switch x := in.(type) {
+		case *ssa.Call:
+			if _, isB := x.Call.Value.(*ssa.Builtin); isB {
+				return nil
+			}
+			if call != nil {
+				return nil
+			}
+			call = x
+		case *ssa.Return:
+			ret = x
+		case *ssa.Alloc, *ssa.FieldAddr, *ssa.Store, *ssa.UnOp, *ssa.DebugRef, *ssa.Extract, *ssa.MakeInterface, *ssa.ChangeType, *ssa.Convert:
+		default:
+			return nil
+		}
+	}
+	if call == nil || ret == nil {
+		return nil
+	}
+	g := call.Call.StaticCallee()
+	if g == nil || !p.InZap(g) || len(g.Blocks) == 0 || g == f {
+		return nil
+	}
+	// only the compatibility idiom: the target's name extends the anchor's (Foo -> FooWithOptions, fooCtx)
+	if !strings.HasPrefix(strings.ToLower(g.Name()), strings.ToLower(f.Name())) || len(g.Name()) == len(f.Name()) {
+		return nil
+	}
+	// every parameter is handed on, every result comes from the call
+	for _, prm := range f.Params {
+		handed := false
+		for _, a := range call.Call.Args {
+			if root(a) == ssa.Value(prm) {
+				handed = true
+			}
+			// … or sits in the options literal that is handed on
+			if u, ok := a.(*ssa.UnOp); ok {
+				if al, ok := u.X.(*ssa.Alloc); ok {
+					for _, r := range *al.Referrers() {
+						if fa, ok := r.(*ssa.FieldAddr); ok {
+							for _, r2 := range *fa.Referrers() {
+								if st, ok := r2.(*ssa.Store); ok && root(st.Val) == ssa.Value(prm) {
+									handed = true
+								}
+							}
+						}
+					}
+				}
+			}
+		}
+		if !handed {
+			return nil
+		}
+	}
+	for _, r := range ret.Results {
+		switch x := r.(type) {
+		case *ssa.Extract:
+			if x.Tuple != ssa.Value(call) {
+				return nil
+			}
+		case *ssa.Call:
+			if x != call {
+				return nil
+			}
+		default:
+			return nil
+		}
+	}
+	if len(ret.Results) == 0 {
+		return nil
+	}
+	return g
 }
 
 func (c *RuleCtx) pos(in ssa.Instruction) string { return c.p.instrPos(in) }
